@@ -31,6 +31,7 @@ from .c01 import r1_6
 from .c03 import r3_2
 from .common import callee_name
 from .common import calls
+from .common import isinstance_classes
 from .common import path_conditions
 
 EVAL_METHODS = (
@@ -64,10 +65,12 @@ def return_slices(ctx: Ctx, cls: ClassInfo, fn: FuncInfo, depth: int = 0) -> Lis
     assigns: Dict[str, List[ast.AST]] = {}
     for n in ast.walk(fn.node):
         if isinstance(n, ast.Assign):
+            # the value, and the tests that decide whether this assignment runs (control dependence)
+            deps: List[ast.AST] = [n.value] + [t for t, _b in path_conditions(fn.node, n)]
             for t in n.targets:
                 for x in ast.walk(t):
                     if isinstance(x, ast.Name):
-                        assigns.setdefault(x.id, []).append(n.value)
+                        assigns.setdefault(x.id, []).extend(deps)
         elif isinstance(n, ast.AnnAssign) and n.value is not None and isinstance(n.target, ast.Name):
             assigns.setdefault(n.target.id, []).append(n.value)
         elif isinstance(n, ast.AugAssign) and isinstance(n.target, ast.Name):
@@ -289,61 +292,64 @@ def r10_2(ctx: Ctx) -> RuleResult:
                    file=fmod.relpath, qualname=f"jsonpath.filter.{name}")
     if n_const < 3:
         raise AnalysisError("R10.2: precedence constants of the printer not found in filter.py")
-    # (b) every binary operator below PREFIX is parenthesised under a tighter parent
+    # (b) every binary operator below PREFIX is parenthesised under a tighter parent: partial
+    #     evaluation of the printer with `expression` an InfixExpression whose operator is known
+    from sa.peval import Text
+    from sa.peval import UNKNOWN
+    from sa.peval import explore
+
     canon = ctx.repo.require_func("BooleanExpression._canonical_string")
     ops = ctx.folder.class_attr(parser, "BINARY_OPERATORS")
     prec = ctx.folder.class_attr(parser, "PRECEDENCES")
     prefix = ctx.folder.class_attr(parser, "PRECEDENCE_PREFIX")
     params = [a.arg for a in canon.node.args.args]
     exprp, parentp = params[1], params[2]
-    handled: Dict[str, ast.AST] = {}
-    generic: Optional[ast.AST] = None
-    for r in [n for n in ast.walk(canon.node) if isinstance(n, ast.Return)]:
-        conds = path_conditions(canon.node, r)
-        in_infix = any(
-            isinstance(t, ast.Call) and callee_name(t) == "isinstance" and b and "InfixExpression" in ast.unparse(t)
-            for t, b in conds
-        )
-        if not in_infix:
-            continue
-        paren = isinstance(r.value, ast.IfExp) and parentp in ast.unparse(r.value.test) and "(" in ast.unparse(r.value.body)
-        if not paren:
-            continue
-        op_lits: List[str] = []
-        for t, b in conds:
-            if isinstance(t, ast.Compare) and path_of(t.left) == f"{exprp}.operator" and b:
-                c = t.comparators[0]
-                if isinstance(t.ops[0], ast.Eq) and isinstance(c, ast.Constant):
-                    op_lits.append(c.value)
-                elif isinstance(t.ops[0], ast.In) and isinstance(c, (ast.Tuple, ast.List, ast.Set)):
-                    op_lits.extend(x.value for x in c.elts if isinstance(x, ast.Constant))
-        if op_lits:
-            for o in op_lits:
-                handled[o] = r
-        else:
-            generic = r
-    infix_cls = ctx.repo.require_class("InfixExpression")
+
+    def oracle_for(cls_name: str):  # type: ignore[no-untyped-def]
+        def oracle(t: ast.expr, env: dict) -> Optional[bool]:  # type: ignore[type-arg]
+            ic = isinstance_classes(t)
+            if ic is not None and ic[0] == exprp:
+                return any(ctx.repo.is_subclass(cls_name, c) for c in ic[1])
+            return None
+        return oracle
+
     for tok, op in sorted(ops.items()):
         level = prec.get(tok)
         if level is None or level >= prefix:
             continue
-        if op in handled or generic is not None:
-            rr.ok(canon.loc(handled.get(op) or generic), f"`{op}` (precedence {level}) is parenthesised under a tighter parent")
+
+        def value_oracle(e: ast.expr, env: dict, op=op):  # type: ignore[no-untyped-def,type-arg]
+            if path_of(e) == f"{exprp}.operator":
+                return op
+            return None
+
+        outs = explore(ctx.folder, canon, {parentp: prefix}, oracle_for("InfixExpression"), None, value_oracle)
+        rets = [(n, v) for k, n, v in outs if k == "return"]
+        if not rets:
+            raise AnalysisError(f"R10.2: _canonical_string returns nothing for an infix `{op}`")
+        bare = [(n, v) for n, v in rets if not (isinstance(v, (str, Text)) and (Text((v,)) if isinstance(v, str) else v).startswith("(")
+                                                 and (Text((v,)) if isinstance(v, str) else v).endswith(")"))]
+        if not bare:
+            rr.ok(canon.loc(rets[0][0]), f"`{op}` (precedence {level}) is parenthesised under a tighter parent")
         else:
+            n, v = bare[0]
+            shown = v.literal() if isinstance(v, Text) else ("an unknown text" if v is UNKNOWN else repr(v))
             rr.bad(canon, canon.node, f"`{op}` (precedence {level} < {prefix}) is printed without parentheses when "
-                   f"it is the operand of `!`: `!(@.a {op} 1)` is printed as `!@['a'] {op} 1`, which parses as "
-                   f"`(!@['a']) {op} 1`", construct=f"no parenthesisation for {op}")
+                   f"it is the operand of `!` (line {getattr(n, 'lineno', '?')} returns {shown}): `!(@.a {op} 1)` is printed as "
+                   f"`!@['a'] {op} 1`, which parses as `(!@['a']) {op} 1`", construct=f"no parenthesisation for {op}")
     # (c) the prefix branch passes PRECEDENCE_PREFIX down
-    ok = False
-    for c in calls(canon.node, "_canonical_string"):
-        conds = path_conditions(canon.node, c)
-        if any("PrefixExpression" in ast.unparse(t) and b for t, b in conds):
-            if len(c.args) >= 2 and "PRECEDENCE_PREFIX" in ast.unparse(c.args[1]):
-                ok = True
-    if ok:
+    passed: List[object] = []
+
+    def on_call(c: ast.Call, args: List[object], env: dict):  # type: ignore[no-untyped-def,type-arg]
+        if callee_name(c) == "_canonical_string" and len(args) >= 2:
+            passed.append(args[1])
+        return None
+
+    explore(ctx.folder, canon, {}, oracle_for("PrefixExpression"), on_call)
+    if passed and all(p == prefix for p in passed):
         rr.ok(canon.loc(), "the operand of `!` is printed with parent precedence PRECEDENCE_PREFIX")
     else:
-        rr.bad(canon, canon.node, "the operand of `!` must be printed with the prefix precedence as parent",
+        rr.bad(canon, canon.node, f"the operand of `!` must be printed with the prefix precedence as parent (passed: {passed})",
                construct="prefix branch precedence")
     return rr
 
